@@ -502,12 +502,38 @@ fn run_case(rt: &tokio::runtime::Runtime, case: &Value) -> Value {
            "replay": {"cwd": cwd, "init": listing_json(&init_listing), "ops": run.done}, "n_cks": w.cks.len()})
 }
 
+/// delta-debug the history of a failing generated case: fewest operations that still show the same class
+fn shrink_case(rt: &tokio::runtime::Runtime, first: &Value) -> Value {
+    let class = first["viol"][0]["class"].as_str().unwrap_or("").to_string();
+    let init = first["replay"]["init"].clone();
+    let cwd = first["replay"]["cwd"].clone();
+    let ops: Vec<Value> = first["replay"]["ops"].as_array().cloned().unwrap_or_default();
+    let mk = |cand: &[Value]| json!({"cwd": cwd, "init": init, "ops": cand});
+    let small = shrink_vec(ops, |cand| {
+        let o = run_case(rt, &mk(cand));
+        o["viol"].as_array().map(|v| v.iter().any(|x| x["class"] == class.as_str())).unwrap_or(false)
+    });
+    let o = run_case(rt, &mk(&small));
+    if o["viol"].as_array().map(|v| !v.is_empty()).unwrap_or(false) {
+        o
+    } else {
+        first.clone()
+    }
+}
+
 fn worker(a: &Args) {
     let jobs: Vec<Value> = serde_json::from_slice(&std::fs::read(a.extra.get("worker").unwrap()).unwrap()).unwrap();
     let rt = tokio::runtime::Builder::new_current_thread().enable_all().build().unwrap();
     let mut res = vec![];
     for j in &jobs {
-        let got = std::panic::catch_unwind(std::panic::AssertUnwindSafe(|| run_case(&rt, j)));
+        let got = std::panic::catch_unwind(std::panic::AssertUnwindSafe(|| {
+            let o = run_case(&rt, j);
+            if j.get("ops").is_none() && o["viol"].as_array().map(|v| !v.is_empty()).unwrap_or(false) {
+                shrink_case(&rt, &o)
+            } else {
+                o
+            }
+        }));
         let _ = std::env::set_current_dir("/");
         res.push(got.unwrap_or_else(|_| json!({"panicked": true})));
     }
